@@ -198,21 +198,33 @@ Definition hdclasses_enc (nhosts bs : nat) (l : list (nat * op)) : list N :=
   flat_map (fun h => map klass_id (dclasses bs (host_ops h l))) (seq 0 nhosts).
 
 (* ---- the alphabet and the side conditions of the C07 theorem ------------------------------- *)
-(* everything except the recursive conveniences and remove_dir *)
+(* everything except the recursive conveniences create_dir_all / remove_dir_all *)
 Definition c07_op (o : op) : bool :=
-  match o with MkdirAll _ | RmdirAll _ | Rmdir _ => false | _ => true end.
-(* KindSwap (C07 only): a directory is created where a file was unlinked since
-   the last crash *)
-Definition kind_swap (gone : list path) (o : op) : bool :=
-  match o with Mkdir p => mem_path p gone | _ => false end.
+  match o with MkdirAll _ | RmdirAll _ => false | _ => true end.
+(* directories removed since the last crash *)
+Definition gd_after (t : sworld) (gd : list path) (o : op) : list path :=
+  match o with
+  | Rmdir p => match nget (names t) p with Some EDir => p :: gd | _ => gd end
+  | Crash _ => []
+  | _ => gd
+  end.
+(* KindSwap (C07 only): an entry of one kind is created where an entry of the
+   other kind was removed since the last crash *)
+Definition kind_swap (t : sworld) (gone gd : list path) (o : op) : bool :=
+  match o with
+  | Mkdir p => mem_path p gone
+  | Open _ p _ _ _ _ c n => match nget (names t) p with None => (c || n) && mem_path p gd | _ => false end
+  | Spit p _ _ => match nget (names t) p with None => mem_path p gd | _ => false end
+  | _ => false
+  end.
 (* no known class, no KindSwap, and every crash finds all durable entries reachable *)
-Fixpoint dsafe_from (d : dworld) (gone : list path) (l : list op) : bool :=
+Fixpoint dsafe_from (d : dworld) (gone gd : list path) (l : list op) : bool :=
   match l with
   | [] => true
   | o :: l' =>
       (match op_classes (dw d) gone o with [] => true | _ => false end)
-      && negb (kind_swap gone o)
+      && negb (kind_swap (dw d) gone gd o)
       && (match o with Crash _ => negb (dangling d) | _ => true end)
-      && dsafe_from (fst (dstep d o)) (gone_after (dw d) gone o) l'
+      && dsafe_from (fst (dstep d o)) (gone_after (dw d) gone o) (gd_after (dw d) gd o) l'
   end.
-Definition dsafe (bs : nat) (l : list op) : bool := dsafe_from (init_dworld bs) [] l.
+Definition dsafe (bs : nat) (l : list op) : bool := dsafe_from (init_dworld bs) [] [] l.
